@@ -808,7 +808,8 @@ def r09g(ctx):
                         if v and a[0] == 'sub' and a[2][0] == 'const' and a[1][0] == 'attr' and
                         a[1][2] == 'meta' and a[2][1] in ('flatten', 'squeeze')), None)
             if key is not None:
-                sites.setdefault(key, (e.data[0][2][1], e.node))
+                from ..util import resolve_namedtuples
+                sites.setdefault(key, (resolve_namedtuples(repo, e.data[0][2][1]), e.node))
     ctx.floor('R09g', 'FlattenFeaturesCalculator creation cases', len(sites), 2)
 
     def bindings(t, shape, argvals):
